@@ -1,6 +1,8 @@
 package web
 
 //vp:use promstub
+//vp:all model regexp.MustCompile = vpmRegexpMustCompile
+//vp:all model (*regexp.Regexp).ReplaceAllString = vpmRegexpReplaceAllString
 
 // Shared harness scaffolding for package web (overlay only).
 
